@@ -192,6 +192,9 @@ def run(ctx):
     scen = []
     if cex:
         scen.append(dict(id="cex/" + cex[0], mode="server", cap=0, script=script_from_behaviour(cex[1], 0)))
+    # the known deviation "workDone closed when the read loop ends" (pinned server): counterexample as targeted script
+    dv = A.deviation_cex(ctx, "ATPServerEnvMC", "early_close", dict(consts, MaxEnv=3, LateClose="FALSE"), ["EnvNoCrash"], spec="EnvSpec")
+    scen.append(dict(id="deviation/early_close", mode="server", cap=0, script=script_from_behaviour(parse_acts(dv.out, True), 0)))
     nsim = 300 if thorough else 60
     cfg = A.mc_cfg(os.path.join(ctx.tmp, "c07_sim.cfg"), dict(Runs="R3", StepBeh="BehAll", BadSigRuns="R1", MaxEnv=6),
                    invariants=["EnvNoCrash", "EnvOneTerminal"], spec="EnvSpec")
